@@ -3,7 +3,7 @@
    granularity of the scheduling hook points). All theorems quantify over every program list, every
    initial buffering mode and pending buffer, and EVERY schedule (list of task ids of any length). *)
 From Coq Require Import List NArith.
-From AnyTLS Require Import Bytes Cmd Generated Frame Conc ConcInv ConcLin.
+From AnyTLS Require Import Bytes Cmd Generated FactsConc Frame Conc ConcInv ConcLin.
 Import ListNotations.
 
 (* writer-lock discipline in every reachable state: the holder is exactly the task inside its
